@@ -174,8 +174,44 @@ def real_commands(rng, n_cmds, n_threads, with_findings=False):
             samples.append({"command": sp, "stdout": out[:3], "returncode": rc})
     if with_findings:
         known.extend(probe_findings(Command, Till, mo_threads))
+        viol.extend(probe_idle_reuse(Command, Till, mo_threads))
     Command._worker = orig_worker
     return lines, viol, known, samples
+
+
+def probe_idle_reuse(Command, Till, mo_threads):
+    """history of shell reuse: a shell that sat idle longer than the NEXT Command's output timeout is recycled for a Command
+    that is silent for a while; the Command must still get its own lines and status (the idle time of the shell is not silence
+    of the new Command)"""
+    import time
+    out = []
+
+    def run(name, params, timeout):
+        c = Command(name, params, cwd="/usr", timeout=timeout)
+        got = []
+        deadline = Till(seconds=12)
+        while not deadline:
+            v = c.stdout.pop(till=deadline)
+            if v == mo_threads.PLEASE_STOP:
+                break
+            if v is not None:
+                got.append(v)
+        try:
+            c.join(till=Till(seconds=5))
+        except Exception:   # noqa
+            pass
+        return got, c.returncode
+
+    # (the first Command also writes to stderr: a shell's reading times start 10 s in the future, as a start-up allowance)
+    got, rc = run("idle-a", ["bash", "-c", "echo first; echo e >&2"], 20)
+    if got != ["first"] or rc != 0:
+        return out          # the plain case is reported by the main batch
+    time.sleep(3.6)         # the shell is idle, longer than the timeout of the next Command
+    got, rc = run("idle-b", ["bash", "-c", "sleep 1.4; echo one; echo two; exit 7"], 3)
+    if got != ["one", "two"] or rc != 7:
+        out.append("C18: a Command started on a recycled shell that had been idle for 3.6 s (timeout 3 s, first output after 1.4 s) "
+                   "yielded stdout %r and returncode %r instead of ['one', 'two'] and 7" % (got, rc))
+    return out
 
 
 def probe_findings(Command, Till, mo_threads):
